@@ -43,6 +43,7 @@ pub struct Outcome {
     pub oracle: Vec<String>,
     pub stderr: String,
     pub wall_ms: u128,
+    pub pid: u32,
 }
 
 /// (tid, comm, state, utime+stime) of every task of `pid`
@@ -127,7 +128,7 @@ pub fn run_child(engine: &str, line: &str) -> Outcome {
     };
     let _ = reader.join();
     let stderr = err_reader.join().unwrap_or_default();
-    let mut o = Outcome { exit, results: vec![], stats: vec![], oracle: vec![], stderr, wall_ms: t0.elapsed().as_millis() };
+    let mut o = Outcome { exit, results: vec![], stats: vec![], oracle: vec![], stderr, wall_ms: t0.elapsed().as_millis(), pid };
     for l in lines.lock().unwrap().iter() {
         if let Some(r) = l.strip_prefix("R ") { o.results.push(r.to_string()); }
         else if let Some(r) = l.strip_prefix("S ") { o.stats.push(r.to_string()); }
